@@ -8,22 +8,34 @@
    from the store of ApiEdits!Init, and prints each as a run for the replay harness.          *)
 EXTENDS ApiEdits
 
-CONSTANT FocusName
+CONSTANTS FocusName, OtherName, UseAllOps
 
 VARIABLE hist
 fvars == <<st, steps, last, hist>>
 
-OnlyMR(v) == [maxReaders |-> v, override |-> Unset, bad |-> "none"]
+OnlyMR(v) == [maxReaders |-> v, override |-> Unset, ports |-> Unset, bad |-> "none"]
+OnlyPorts(v) == [maxReaders |-> Unset, override |-> Unset, ports |-> v, bad |-> "none"]
 DefMR(v)  == [maxReaders |-> v, rda |-> Unset, bad |-> "none"]
 FocusOps ==
     {Op("PatchDefaults", "", DefMR(v)) : v \in {"0", "3"}}
     \cup {Op("PatchPath", FocusName, OnlyMR(v)) : v \in {"0", "3"}}
-    \cup {Op("ReplacePath", FocusName, OnlyMR(v)) : v \in {Unset, "0", "3"}}
-    \cup {Op("AddPath", FocusName, OnlyMR(v)) : v \in {Unset, "0", "3"}}
+    \cup {Op("ReplacePath", FocusName, OnlyMR(v)) : v \in {Unset, "3"}}
+    \cup {Op("AddPath", FocusName, OnlyMR(v)) : v \in {Unset, "0"}}
     \cup {Op("DeletePath", FocusName, NoPl)}
+    \* the list-typed field: set on the focused path while another path inherits the defaults' list
+    \cup {Op("PatchPath", FocusName, OnlyPorts("a"))}
+    \cup {Op("AddPath", OtherName, OnlyPorts(Unset))}
+
+\* every edit of the whole model (used with -simulate: random behaviours instead of an edge cover of the
+\* state graph, whose edge count is the number of payload combinations)
+AllOps ==
+    {Op("PatchGlobal", "", pl) : pl \in GPayloads} \cup {Op("PatchDefaults", "", pl) : pl \in DPayloads}
+    \cup {Op(k, n, pl) : k \in {"AddPath", "PatchPath", "ReplacePath"}, n \in Names, pl \in PPayloads}
+    \cup {Op("DeletePath", n, NoPl) : n \in Names}
+Alphabet == IF UseAllOps THEN AllOps ELSE FocusOps
 
 FInit == Init /\ hist = <<>>
-FNext == \E op \in FocusOps : Do(op) /\ hist' = Append(hist, op)
+FNext == \E op \in Alphabet : Do(op) /\ hist' = Append(hist, op)
 FSpec == FInit /\ [][FNext]_fvars
 
 EmitRuns == steps = MaxSteps => Emit("RUN", [ops |-> hist])
